@@ -1,15 +1,21 @@
 #!/bin/sh
 # setup.sh -- build the framework from files on disk only (offline): sanitizer build of the library under
-# test, full .vo build of the Coq development (which also extracts the models), the OCaml model runner.
+# test, regenerated translator tables, full .vo build of the Coq development (which also extracts the models),
+# the OCaml model runners.
 set -e
 cd "$(dirname "$0")"
 python3 - <<'PY'
-import sys, os
+import sys, os, importlib, glob
 sys.path.insert(0, os.getcwd())
 import vlib
 vlib.build_impl()
 print("implementation built")
-out = vlib.coq_setup()
+for f in sorted(glob.glob("checks/C*.py")):
+    mod = importlib.import_module("checks." + os.path.basename(f)[:-3])
+    if hasattr(mod, "pregen"):
+        mod.pregen()
+        print("regenerated tables for", os.path.basename(f)[:-3])
+vlib.coq_setup()
 print("coq development built")
 for f in sorted(os.listdir("coq")):
     if f.startswith("Extract_") and f.endswith(".v"):
